@@ -127,6 +127,12 @@ Error ConstPool::add(const void* data, size_t size, Out<size_t> offset_out) noex
     return Error::kOk;
   }
 
+  // Allocate the node first - if this fails the pool must stay as it is (no gap consumed, no size change).
+  node = ConstPool::Tree::new_node_t(_arena, data, size, 0, false);
+  if (ASMJIT_UNLIKELY(!node)) {
+    return make_error(Error::kOutOfMemory);
+  }
+
   // Before incrementing the current offset try if there is a gap that can be used for the requested data.
   size_t offset = ~size_t(0);
   size_t gap_index = tree_index;
@@ -169,11 +175,7 @@ Error ConstPool::add(const void* data, size_t size, Out<size_t> offset_out) noex
   }
 
   // Add the initial node to the right index.
-  node = ConstPool::Tree::new_node_t(_arena, data, size, offset, false);
-  if (ASMJIT_UNLIKELY(!node)) {
-    return make_error(Error::kOutOfMemory);
-  }
-
+  node->_offset = uint32_t(offset);
   _tree[tree_index].insert(node);
   _alignment = Support::max<size_t>(_alignment, size);
 
